@@ -50,6 +50,9 @@ package loader
 //@   ensures def [C15]: result == w.size
 
 //@ func (*writerOutput).Index
+//@   ghost at entry: mark(w) := 0
+//@   ghost after call[append#*]: mark(w) := mark(w) + 1
+//@   loop[0] step one_record_per_entry [C15]: mark(w) == athead(0, mark(w)) + 1
 //@   let idx, nerr := call[index.New#0]
 //@   call[index.New#0] assert configured_codec [C05,C15]: arg0 == w.code
 //@   call[append#0] assert every_record [C15]: ref(arg0) == ref(rcrds) && len(arg1) == 1 && arg1[0] == r
